@@ -46,3 +46,42 @@ Definition mon_C20_cmd (c impl : val) : val :=
                   | None => false end in
     if rcpt_ok && fee_ok then VL [] else VL [VL [k_c20_cmd; VI 0; c]]
   else VL [].
+
+(* ---------- relay suite: the connector process itself ---------- *)
+Definition k_c20_claims : val := Eval vm_compute in VB (sbytes "C20/claims-not-numbered-consecutively").
+
+Fixpoint zrange (a : Z) (n : nat) : list Z := match n with O => [] | S m => a :: zrange (a + 1) m end.
+
+(* every cursor the process reports or persists is a whole-block cursor, and the claims of a round carry exactly
+   the event nonces from the round's starting cursor up to (excluding) its final one, each once *)
+Definition mon_C20_relay (c impl : val) : val :=
+  let cfg := vnth 0 c in
+  let start := mkCur (vI (vnth 0 cfg)) (vI (vnth 1 cfg)) (vI (vnth 2 cfg)) (vI (vnth 3 cfg)) in
+  let chain := map (fun b => map dec_mtx (vL b)) (vL (vnth 1 c)) in
+  VL (snd (fold_left (fun (acc : nat * list val) o =>
+                        let step := fst acc in
+                        let check (what : Z) (v : val) :=
+                            match dec_cursor_opt v with
+                            | Some cu => if cursor_okb start chain cu then [] else [VL [k_c20_cursor; VI (Z.of_nat step); VI what; v]]
+                            | None => []
+                            end in
+                        let rounds := vL (vnth 1 o) in
+                        let round_checks :=
+                            snd (fold_left (fun (ra : option cursor * list val) r =>
+                                              let cur := dec_cursor_opt (vnth 0 r) in
+                                              let claims := tl (vL (vnth 1 r)) in
+                                              let nonces := map (fun cl => vI (vnth 1 cl)) claims in
+                                              (cur,
+                                               snd ra ++ check 2 (vnth 0 r) ++
+                                               match fst ra, cur with
+                                               | Some p, Some q =>
+                                                   let want := zrange (cu_nonce p) (Z.to_nat (cu_nonce q - cu_nonce p)) in
+                                                   if Nat.eqb (List.length nonces) (List.length want)
+                                                      && forallb (fun n => existsb (Z.eqb n) nonces) want
+                                                      && forallb (fun n => existsb (Z.eqb n) want) nonces then []
+                                                   else [VL [k_c20_claims; VI (Z.of_nat step); vnth 0 r; VL (map VI nonces)]]
+                                               | _, _ => []
+                                               end))
+                                           rounds (dec_cursor_opt (vnth 0 o), [])) in
+                        (S step, snd acc ++ check 0 (vnth 0 o) ++ round_checks ++ check 1 (vnth 2 o)))
+                     (vL impl) (O, []))).
